@@ -1124,7 +1124,7 @@ def subtitle_end_fn(ctx: "Wtp", token: str) -> None:
     for parent_node in reversed(ctx.parser_stack):
         if parent_node.loc != ctx.linenum:
             break
-        if parent_node.kind == kind:
+        if parent_node.kind == kind and not parent_node.largs:
             for _ in range(pop_count):
                 _parser_pop(ctx, True)
             find_start_node = True
